@@ -9,6 +9,7 @@ mod chan;
 use chan::*;
 use util::*;
 use opcua::core::comms::chunker::Chunker;
+use opcua::core::comms::message_writer::MessageWriter;
 use opcua::core::comms::message_chunk::{MessageChunk, MessageChunkType, MessageIsFinalType};
 use opcua::crypto::pkey::KeySize;
 
@@ -19,14 +20,31 @@ pub struct Case {
     /// Some((k, d)): the filler length is chosen at run time so that the encoded message is exactly
     /// k full chunk bodies plus d bytes (the body room is asked from the real code)
     boundary: Option<(usize, i64)>,
+    /// the message goes through the server's `MessageWriter` whose send buffer size (negotiated in
+    /// HEL/ACK) is `max_chunk`, instead of through `Chunker::encode` + `apply_security` directly
+    writer: bool,
 }
 pub struct P;
+
+/// split what the writer put on the wire into secured chunks by the size field of each chunk header
+fn split_wire(bs: &[u8]) -> Vec<Vec<u8>> {
+    let mut v = Vec::new();
+    let mut i = 0;
+    while i + 8 <= bs.len() {
+        let n = u32::from_le_bytes([bs[i + 4], bs[i + 5], bs[i + 6], bs[i + 7]]) as usize;
+        if n < 12 || i + n > bs.len() { break; }
+        v.push(bs[i..i + n].to_vec());
+        i += n;
+    }
+    if i < bs.len() { v.push(bs[i..].to_vec()); }
+    v
+}
 
 fn fin_code(f: MessageIsFinalType) -> i128 { match f { MessageIsFinalType::Intermediate => 0, MessageIsFinalType::Final => 1, MessageIsFinalType::FinalError => 2 } }
 
 fn mk(policy: usize, mode: usize, mty: usize, max_chunk: usize, len: usize, exact: bool) -> Case {
     Case { policy, mode, mty, max_chunk, chan_id: 5, token_id: 9, seq0: 1, req_id: 1000, sid: 0, rid: 1,
-           fill: Fill { len, a: 3, b: 7, m: if mty == 2 { 95 } else { 256 }, lo: if mty == 2 { 32 } else { 0 } }, exact, boundary: None }
+           fill: Fill { len, a: 3, b: 7, m: if mty == 2 { 95 } else { 256 }, lo: if mty == 2 { 32 } else { 0 } }, exact, boundary: None, writer: false }
 }
 
 /// identities whose key length the policy allows (quick: 2048 only)
@@ -67,6 +85,14 @@ impl Property for P {
         v.push(mk(1, 2, 1, 8196, 9000, false));
         v.push(mk(3, 1, 1, 8196, 20000, false));
         v.push(mk(5, 2, 1, 9001, 7000, false));
+        // the server's MessageWriter with a negotiated send buffer of 8196 / 9000 bytes and a response that does
+        // not fit one chunk: before the fix it wrote one chunk of 9064 bytes (max_chunk_size 0 = no limit)
+        for (policy, mode, max_chunk, len, exact) in [(0usize, 0usize, 8196usize, 9000usize, true), (0, 0, 8196, 30000, false), (3, 1, 8196, 8900, true),
+                                                      (3, 2, 9000, 9500, false), (1, 2, 8196, 20000, false), (0, 0, 8196, 100, true), (4, 1, 12000, 40000, false)] {
+            let mut c = mk(policy, mode, 0, max_chunk, len, exact);
+            c.writer = true;
+            v.push(c);
+        }
         // empty filler; exactly one full chunk; one byte more
         v.push(mk(0, 0, 0, 8196, 0, true));
         // encoded message = exactly k full chunk bodies (and one byte either side): the last chunk is
@@ -105,7 +131,8 @@ impl Property for P {
                // near the top of the u32 range, but the sequence numbers of the message stay below 2^32 (wrap-around is C12's subject)
                seq0: if r.chance(1, 10) { u32::MAX - (len as u32 + 64) - r.below(6) as u32 } else { 1 + r.below(100000) as u32 }, req_id: r.next() as u32,
                sid, rid, fill: Fill { len, a: r.below(256) as u32, b: r.below(256) as u32, m, lo }, exact,
-               boundary: if max_chunk > 0 && r.chance(1, 5) { Some((1 + r.below(3) as usize, r.range(-1, 1))) } else { None } }
+               boundary: if max_chunk > 0 && r.chance(1, 5) { Some((1 + r.below(3) as usize, r.range(-1, 1))) } else { None },
+               writer: max_chunk > 0 && r.chance(1, 4) }
     }
     fn exec(c: &Case) -> Out {
         let ns = nonce_for(c.policy, 11);
@@ -128,6 +155,59 @@ impl Property for P {
         let deterministic = c.policy == 0 || (c.mode == 1 && c.mty != 1);
         let mut out: Vec<i128> = Vec::new();
         let mut nchunks = 0usize;
+        if c.writer {
+            // MessageWriter::new(send buffer size negotiated for the connection, no message size limit, no chunk count limit)
+            let mut mw = MessageWriter::new(c.max_chunk, 0, 0);
+            mw.verif_set_last_sent_sequence_number(c.seq0.wrapping_sub(1));
+            // what a sender honouring the negotiated size produces, to compare the received chunks with
+            let reference: Vec<MessageChunk> = Chunker::encode(c.seq0, c.req_id, 0, c.max_chunk, &sender, &msg).unwrap_or_default();
+            match guarded(|| mw.write(c.req_id, msg.clone(), &sender)) {
+                Err(_) => out.push(-2),
+                Ok(Err(_)) => out.push(1),
+                Ok(Ok(_)) => {
+                    let wire = split_wire(&mw.bytes_to_write());
+                    out.push(0);
+                    out.push(wire.len() as i128);
+                    nchunks = wire.len();
+                    let mut received: Vec<MessageChunk> = Vec::new();
+                    let mut all_ok = true;
+                    for (i, sec) in wire.iter().enumerate() {
+                        match guarded(|| receiver.verify_and_remove_security(sec)) {
+                            Ok(Ok(rc)) => {
+                                match rc.chunk_info(&receiver) {
+                                    Ok(info) => { out.push(rc.data.len() as i128); out.push(fin_code(info.message_header.is_final));
+                                                  out.push(info.sequence_header.sequence_number as i128); out.push(info.sequence_header.request_id as i128); }
+                                    Err(_) => out.extend([rc.data.len() as i128, -1, -1, -1]),
+                                }
+                                out.push(0);
+                                out.push(sec.len() as i128);
+                                if c.exact && deterministic { let (a, b) = checksum(sec); out.push(a); out.push(b); } else { out.push(-1); out.push(-1); }
+                                out.push(0);
+                                out.push(rc.data.len() as i128);
+                                out.push(reference.get(i).map(|r| r.data == rc.data).unwrap_or(false) as i128);
+                                received.push(rc);
+                            }
+                            Ok(Err(_)) => { out.extend([-1, -1, -1, -1, 0, sec.len() as i128, -1, -1, 1, -1, -1]); all_ok = false; }
+                            Err(_) => { out.extend([-1, -1, -1, -1, 0, sec.len() as i128, -1, -1, -2, -1, -1]); all_ok = false; }
+                        }
+                    }
+                    if all_ok {
+                        match guarded(|| Chunker::validate_chunks(c.seq0, &receiver, &received)) {
+                            Ok(Ok(last)) => { out.push(0); out.push(last as i128); }
+                            Ok(Err(_)) => { out.push(1); out.push(-1); }
+                            Err(_) => { out.push(-2); out.push(-1); }
+                        }
+                        match guarded(|| Chunker::decode(&received, &receiver, None)) {
+                            Ok(Ok(m2)) => { out.push(0); out.push((m2 == msg) as i128); }
+                            Ok(Err(_)) => { out.push(1); out.push(-1); }
+                            Err(_) => { out.push(-2); out.push(-1); }
+                        }
+                    } else {
+                        out.extend([-1, -1, -1, -1]);
+                    }
+                }
+            }
+        } else {
         match guarded(|| Chunker::encode(c.seq0, c.req_id, 0, c.max_chunk, &sender, &msg)) {
             Err(_) => out.push(-2),
             Ok(Err(_)) => out.push(1),
@@ -180,16 +260,17 @@ impl Property for P {
                 }
             }
         }
+        }
         let (sks, rks, certlen) = if c.policy == 0 { (0, 0, 0) } else {
             (ident(c.sid).cert.public_key().unwrap().size(), ident(c.rid).cert.public_key().unwrap().size(),
              ident(c.sid).cert.as_byte_string().as_ref().len())
         };
         let sigkey: Vec<u8> = if c.exact && c.policy != 0 { sender.verif_derived_keys().0.map(|k| k.0).unwrap_or_default() } else { vec![] };
         let tag = format!("{}-{}-{}-{}{}", pol_name(c.policy), mode_name(c.mode), mty_name(c.mty),
-            if c.max_chunk == 0 { "nolimit".to_string() } else { format!("{}chunks", nchunks.min(4)) }, if c.exact && deterministic { "-exact" } else if c.boundary.is_some() { "-boundary" } else { "" });
-        let term = format!("(mk_case {} {} {} {} {} {} {} {} {} {} {} {} {} {} {} {})",
+            if c.max_chunk == 0 { "nolimit".to_string() } else { format!("{}chunks", nchunks.min(4)) }, if c.writer { "-writer" } else if c.exact && deterministic { "-exact" } else if c.boundary.is_some() { "-boundary" } else { "" });
+        let term = format!("(mk_case {} {} {} {} {} {} {} {} {} {} {} {} {} {} {} {} {})",
             pol_name(c.policy), mode_name(c.mode), mty_name(c.mty), c.max_chunk, c.chan_id, c.token_id, c.seq0, c.req_id,
-            sks, rks, certlen, zbytes(&prefix), c_fill.term(), zbytes(&suffix), zbytes(&sigkey), coq_bool(c.exact && deterministic));
+            sks, rks, certlen, zbytes(&prefix), c_fill.term(), zbytes(&suffix), zbytes(&sigkey), coq_bool(c.exact && deterministic), coq_bool(c.writer));
         Out { tag, term, out }
     }
 }
